@@ -16,6 +16,7 @@ import (
 	"sort"
 	"strconv"
 	"strings"
+	"syscall"
 	"time"
 
 	"github.com/AdguardTeam/AdGuardHome/internal/home"
@@ -109,7 +110,7 @@ func advances(cf cfg) []int64 {
 //
 //	X (cross):    everything, 17 operations.
 //	T (throttle): logins from both addresses, the clock steps around the
-//	              1-minute window and the block period, restart; 10 operations.
+//	              1-minute window and the block period; 8 operations.
 //	S (sessions): one login, request/logout with both cookies, the clock steps
 //	              around the day boundary, the TTL and a day, restart; 11 operations.
 func alphabet(pass string, cf cfg) (ops []op) {
@@ -128,8 +129,7 @@ func alphabet(pass string, cf cfg) (ops []op) {
 	case "T":
 		two("bad")
 		two("good")
-		adv(1, 59, 61, cf.Block-1, cf.Block+1)
-		ops = append(ops, op{K: "restart", C: c})
+		adv(59, 61, cf.Block-1, cf.Block+1)
 	case "S":
 		ops = append(ops, op{K: "good", A: 0, C: c})
 		two("req")
@@ -147,11 +147,16 @@ func alphabet(pass string, cf cfg) (ops []op) {
 	return ops
 }
 
-// splitLevel is the history length at which a BFS is cut into parts.
-const splitLevel = 2
+// splitLevel is the history length at which a BFS of a pass is cut into parts.
+func splitLevel(pass string) int {
+	if pass == "S" {
+		return 3
+	}
+	return 2
+}
 
 // unit is one BFS: a pass on one configuration; with K > 1 only the states
-// reached by histories of length splitLevel whose key hash is J modulo K are
+// reached by histories of length splitLevel(Pass) whose key hash is J modulo K are
 // extended (every part executes all shorter histories itself).
 type unit struct {
 	Pass  string
@@ -163,18 +168,22 @@ type unit struct {
 // weight estimates the cost of a unit (measured growth of the number of
 // states per level), for dealing units to processes.
 func (u unit) weight() float64 {
-	g, n := 5.3, 17.0
+	g, n, ops := 5.3, 10.6, 17.0
 	switch u.Pass {
 	case "T":
-		g, n = 4.3, 12
+		g, n, ops = 3.6, 16, 8
 	case "S":
-		g, n = 3.8, 11
+		g, n, ops = 3.8, 9.2, 11
 	}
 	w := n
 	for i := 1; i < u.Depth; i++ {
 		w *= g
 	}
-	return w/float64(u.K) + n*n
+	pre := ops
+	for i := 1; i < splitLevel(u.Pass); i++ {
+		pre *= ops
+	}
+	return w/float64(u.K) + pre
 }
 
 // deal assigns units to n processes, heaviest first to the least loaded.
@@ -204,7 +213,7 @@ func deal(us []unit, n int) (mine [][]unit) {
 func plan(quick bool, depth, split map[string]int) (us []unit) {
 	add := func(pass string, cf cfg) {
 		k := split[pass]
-		if k < 1 || depth[pass] <= splitLevel {
+		if k < 1 || depth[pass] <= splitLevel(pass) {
 			k = 1
 		}
 		for j := 0; j < k; j++ {
@@ -229,7 +238,7 @@ func plan(quick bool, depth, split map[string]int) (us []unit) {
 
 func tierParams(quick bool) (depth, split map[string]int) {
 	if quick {
-		return map[string]int{"T": 5, "S": 6, "X": 4}, map[string]int{"T": 2, "S": 4, "X": 2}
+		return map[string]int{"T": 5, "S": 6, "X": 4}, map[string]int{"T": 3, "S": 6, "X": 2}
 	}
 	return map[string]int{"T": 7, "S": 8, "X": 5}, map[string]int{"T": 4, "S": 8, "X": 2}
 }
@@ -726,11 +735,11 @@ func run(c *lib.Ctx) {
 			c.Deadline = time.Now().Add(left / time.Duration(len(mine)-i))
 		}
 		u := u
-		t0 := time.Now()
+		cpu0 := cpuSeconds()
 		b := &lib.BFS[op]{C: c, Ops: alphabet(u.Pass, u.Cf), MaxDepth: u.Depth, Workers: 1, Confirm: true,
 			Exec: func(h []op) lib.Step {
 				st := exec(u.Cf, h)
-				if u.K > 1 && len(h) == splitLevel && st.VKey == "" && st.Key != "" && lib.Hash(st.Key)%uint64(u.K) != uint64(u.J) {
+				if u.K > 1 && len(h) == splitLevel(u.Pass) && st.VKey == "" && st.Key != "" && lib.Hash(st.Key)%uint64(u.K) != uint64(u.J) {
 					// Another part extends this state.
 					return lib.Step{Outcome: st.Outcome}
 				}
@@ -738,11 +747,17 @@ func run(c *lib.Ctx) {
 			}}
 		b.Run()
 		c.Count("bfs_runs", 1)
-		if os.Getenv("VERIF_C12_TIMES") != "" {
-			fmt.Fprintf(os.Stderr, "shard %d unit %s %s %d/%d depth %d: %.1fs\n", shardI, u.Pass, u.Cf, u.J, u.K, u.Depth, time.Since(t0).Seconds())
+		if tf := os.Getenv("VERIF_C12_TIMES"); tf != "" {
+			if f, err := os.OpenFile(tf, os.O_APPEND|os.O_CREATE|os.O_WRONLY, 0o644); err == nil {
+				fmt.Fprintf(f, "shard %2d unit %s %-14s %d/%d depth %d: cpu %.1fs\n", shardI, u.Pass, u.Cf, u.J, u.K, u.Depth, cpuSeconds()-cpu0)
+				_ = f.Close()
+			}
 		}
 	}
 	c.ShardI, c.ShardN = shardI, shardN
+	ms := int64(cpuSeconds() * 1000)
+	c.Count("cpu_ms", ms)
+	c.Max("cpu_ms_max_shard", ms)
 	var names []string
 	for _, cf := range crossConfigs(c.Quick()) {
 		names = append(names, cf.String())
@@ -750,6 +765,15 @@ func run(c *lib.Ctx) {
 	c.Note("plan", fmt.Sprintf("pass T (throttle, %d operations, depth %d) on maxAttempts{1,2,3} x blockDur{120,900 s} with TTL 3600 s; pass S (sessions, %d operations, depth %d) on TTL{3600,259200 s} with maxAttempts 2, blockDur 120 s; pass X (cross, %d operations, depth %d) on maxAttempts/blockSeconds/ttlSeconds %s; %d BFS runs over %d processes",
 		len(alphabet("T", cfg{1, b2, t1h})), depth["T"], len(alphabet("S", cfg{1, b2, t1h})), depth["S"], len(alphabet("X", cfg{1, b2, t1h})), depth["X"], strings.Join(names, " "), len(units), shardN))
 	c.Note("alphabet", "bad-login(addr0: wrong password + proxy headers naming addr1 | addr1: unknown user), good-login(addr0|addr1), request(cookie0|1), logout(cookie0|1), advance{1,59,61,block-1,block+1,ttl-1,ttl+1,86400 s}, restart; cookie i = i-th session cookie issued in the history")
+}
+
+// cpuSeconds is the CPU time this process has used.
+func cpuSeconds() float64 {
+	var ru syscall.Rusage
+	if syscall.Getrusage(syscall.RUSAGE_SELF, &ru) != nil {
+		return 0
+	}
+	return float64(ru.Utime.Sec+ru.Stime.Sec) + float64(ru.Utime.Usec+ru.Stime.Usec)/1e6
 }
 
 func replay(c *lib.Ctx, raw json.RawMessage) string {
@@ -793,6 +817,8 @@ func main() {
 				"distinct_nontrivial":           m.Distinct["nontrivial"],
 				"distinct_outcomes":             m.Distinct["outcomes"],
 				"max_depth":                     m.Maxes["max_depth"],
+				"cpu_seconds_total":             float64(m.Counters["cpu_ms"]) / 1000,
+				"cpu_seconds_max_process":       float64(m.Maxes["cpu_ms_max_shard"]) / 1000,
 				"bfs_runs":                      m.Counters["bfs_runs"],
 				"skipped_boundary_landings":     m.Counters["skipped_boundary_landings"],
 				"rule": "BFS over timed histories (failed/successful login from 2 peer addresses, request/logout with the 1st/2nd issued cookie, 8 clock steps straddling the 1-minute window, the block period, the session TTL and a day, restart = Close + InitAuth with a fresh rate limiter on the same sessions.db) executed on the real handleLogin, handleLogout, optionalAuth, InitAuth and authRateLimiter under the virtual clock, for every configuration listed in note_configurations; every (shard, configuration) pair is one BFS, sharded by the first operation. A state is (time of day, failed-attempt table, session map, sessions.db content, model). Oracle after every step: status 429+Retry-After/403/200+cookie against the per-address (count, windowEnd) automaton; authentication of each cookie against two-sided session bounds (must before created+TTL, must not after logout / lastUse+TTL / once seen expired, also across restart); no session token in the tables that no response delivered. A clock step that would land exactly on a model boundary is not taken (skipped_boundary_landings). non-trivial = blocked login, 2nd+ or blocking failure, success that clears a record, request/logout with an issued cookie, restart with sessions",
